@@ -1,5 +1,5 @@
-import sys, random
-sys.path.insert(0, '/verif/tools')
+import sys, random, os
+sys.path.insert(0, os.path.dirname(os.path.abspath(__file__)))
 import common
 from l2 import *
 lang = sys.argv[1]
@@ -7,13 +7,21 @@ rng = random.Random(int(sys.argv[2]) if len(sys.argv) > 2 else 1)
 N = int(sys.argv[3]) if len(sys.argv) > 3 else 300
 common.build_runner()
 cases = []
-MAPS = {"typescript": [{}, {}, {"Url": "string"}, {"Vec<u8>": "Uint8Array"}, {"OffsetDateTime": "Date", "Foo": "FooMapped"}, {"Option<String>": "Maybe", "HashMap<String,u8>": "Dict"}]}
+MAPS = {"typescript": [{}, {}, {"Url": "string"}, {"Vec<u8>": "Uint8Array"}, {"OffsetDateTime": "Date", "Foo": "FooMapped"}, {"Option<String>": "Maybe", "HashMap<String,u8>": "Dict"}],
+        "kotlin": [{}, {}, {"Url": "String"}, {"OffsetDateTime": "Instant"}, {"Foo": "FooMapped", "Bar": "kotlin.Any"},
+                   {"Vec<u8>": "ByteArray", "Option<String>": "Maybe"}, {"T": "Mapped", "Item": "List<Int>"}],
+        "scala": [{}, {}, {"Url": "String"}, {"OffsetDateTime": "String"}, {"Foo": "FooMapped", "Bar": "Map[String, Any]"},
+                  {"Vec<u8>": "Array[Byte]", "u8": "Short", "Option<String>": "Maybe"}]}
 MULTI = "--multi" in sys.argv
 from gen import TYPE_WORDS
 for i in range(N):
     g = Gen(rng, p_cfg=0.0, p_edge=0.0, p_decorators=0.15, p_doc=0.4, multi_file=MULTI, crates=["alpha", "beta_x"])
-    cfg = {"type_mappings": rng.choice(MAPS.get(lang, [{}])), "version_header": rng.random() < 0.2,
-           "package": "com.example.pkg", "module_name": "mod", "prefix": rng.choice(["", "", "OP"])}
+    cfg = {"type_mappings": rng.choice(MAPS.get(lang, [{}])), "version_header": rng.random() < 0.3,
+           "package": "com.example.pkg", "module_name": rng.choice(["mod", "", "Other"]), "prefix": rng.choice(["", "", "OP", "Core_"])}
+    if lang == "kotlin":
+        cfg["package"] = rng.choice(["com.example.pkg", "com.example.pkg", "", "x"])
+    if lang == "scala":
+        cfg["package"] = rng.choice(["com.example.pkg"] * 6 + ["pkg", "a.b", "trailing.", ".leading", "x..y", ".", ""])
     if not MULTI:
         f = g.file()
         m, r, t = requests(lang, cfg, [{"crate": "", "file_name": "out", "path": "src/lib.rs", "file": f}], g)
